@@ -33,6 +33,10 @@ impl Color {
     }
 
     pub fn random() -> Self {
+        #[cfg(chess_verif)]
+        if let Some(index) = crate::verif_hooks::choose(Self::ALL.len()) {
+            return Self::ALL[index];
+        }
         *Self::ALL.choose(&mut rand::thread_rng()).unwrap()
     }
 }
